@@ -170,8 +170,7 @@ func (w *websocket) send(packets []*packet.Packet) {
 					}
 					return
 				}
-				return
-
+				continue
 			}
 		}
 
